@@ -14,6 +14,7 @@ fn new_case(ty: &str, n: usize) -> Option<Box<dyn Runner>> {
     Some(match ty {
         "vclock" => Box::new(Machine::<sut::vclock::VC>::new(n)),
         "orswot" => Box::new(Machine::<sut::orswot::OR>::new(n)),
+        "mvreg" | "mvreg_raw" => Box::new(Machine::<sut::mvreg::MV>::new(n)),
         "gcounter" => Box::new(Machine::<sut::lattice::GC>::new(n)),
         "pncounter" => Box::new(Machine::<sut::lattice::PN>::new(n)),
         "gset" => Box::new(Machine::<sut::lattice::GS>::new(n)),
